@@ -881,7 +881,7 @@ pub fn inside_poll_spaces(specs: Vec<Spec>, what: &str, limits: Vec<Option<usize
         c
     }));
     let lim = limits.clone();
-    v.push(space(&format!("a user future runs the same graph again from inside its own poll (nested for_each_concurrent / fold_async / stream / for_each_concurrent with yielding functions / try_for_each_concurrent, driven to the end there), 10 `&self` future APIs x order x limits {limits:?}, {what}"), specs.clone(), None, move |s| {
+    v.push(space(&format!("a user future runs the same graph again from inside its own poll (nested for_each_concurrent / fold_async / stream / for_each_concurrent with functions pending for two polls / try_for_each_concurrent, driven to the end there), 10 `&self` future APIs x order x limits {limits:?}, {what}"), specs.clone(), None, move |s| {
         let apis: Vec<Api> = Api::all().into_iter().filter(|a| !a.mutable).collect();
         let mut c = cfgs_plain(s.n, &apis, &lim, &REVS);
         if with_fail && s.n >= 1 && s.n <= 3 {
@@ -914,7 +914,9 @@ pub fn inside_poll_spaces(specs: Vec<Spec>, what: &str, limits: Vec<Option<usize
 pub fn nested_run_spaces(prop: u8, tier: &str) -> (Vec<Space>, Focus) {
     let nmax = if tier == "thorough" { 4 } else { 3 };
     let mut v = inside_poll_spaces(shapes_upto(1, nmax, false), &format!("shapes 1<=n<={nmax}"), vec![None, Some(1)], true, true);
-    v.extend(inside_poll_spaces(decl_specs(3, 1), "all DAGs x declarations n=3 T=1", vec![None], false, false).into_iter().skip(1));
+    if prop == 15 || tier == "thorough" {
+        v.extend(inside_poll_spaces(decl_specs(3, 1), "all DAGs x declarations n=3 T=1", vec![None], false, false).into_iter().skip(1));
+    }
     let focus = Focus {
         props: vec![prop],
         nontrivial_s: |_, f| f.nested_runs > 0,
